@@ -13,6 +13,17 @@ BUF_MODEL = ("rapid state machine over bigbuff.Buffer inside a testing/synctest 
              "(values, errors, enabledness of blocked calls, Size/Slice/Diff, cleaner-call log replay, leak check at end). ")
 
 
+BUF_FREE = (" Plus free-running concurrent Buffer programs in a bubble (buffree): 1-4 producers x 1-8 batches of 1-4 values, a witness consumer created before the first Put, "
+            "0-5 consumers created at drawn points with drawn scripts (quota, commit every k, rollbacks, early close), cooldown in {0,50us,1ms}, Gosched bursts at the library's "
+            "instrumentation points; history oracles: witness stream == put order (permutation, batches contiguous, program order, real-time order), every consumer a contiguous run "
+            "starting between the eviction counts around its creation, exact replay after rollback, no Get error, clean close, no goroutine left.")
+
+
+def buffree(prof, quick, thorough):
+    return {"name": "buffree", "test": "TestBufFree", "checks": {"quick": quick, "thorough": thorough},
+            "shards": {"quick": 8, "thorough": 16}, "env": {"VKIT_PROFILE": prof}, "stall_sig": prof + "/stall"}
+
+
 def bufstep(prof, quick, thorough, steps=40):
     return {"name": "bufstep", "test": "TestBufStep", "steps": steps,
             "checks": {"quick": quick, "thorough": thorough},
@@ -141,18 +152,18 @@ CONFIG = {
         "jobs": [chanstep("C13", 24000, 800000)],
     },
     "C01": {
-        "rule": BUF_MODEL + "non-trivial = >=2 consumers alive at once AND >=1 eviction while a consumer was open AND >=1 batch of >=2 values; distinct = hash of the executed op trace.",
-        "jobs": [bufstep("C01", 24000, 800000)],
+        "rule": BUF_MODEL + "non-trivial = >=2 consumers alive at once AND >=1 eviction while a consumer was open AND >=1 batch of >=2 values; distinct = hash of the executed op trace." + BUF_FREE,
+        "jobs": [buffree("C01", 12000, 600000), bufstep("C01", 24000, 800000)],
     },
     "C02": {
-        "rule": BUF_MODEL + "non-trivial = a rollback of >=2 uncommitted values followed by a re-read, or a Range ended by a callback panic; distinct = hash of the executed op trace.",
-        "jobs": [bufstep("C02", 24000, 800000)],
+        "rule": BUF_MODEL + "non-trivial = a rollback of >=2 uncommitted values followed by a re-read, or a Range ended by a callback panic; distinct = hash of the executed op trace." + BUF_FREE,
+        "jobs": [buffree("C02", 12000, 600000), bufstep("C02", 24000, 800000)],
     },
     "C03": {
         "rule": BUF_MODEL + "non-trivial = >=1 eviction while a consumer was open AND (a lagging consumer was observed OR uncommitted reads existed at eviction time); distinct = hash of the executed op trace. "
                 "Plus a pure engine over DefaultCleaner/FixedBufferCleaner: size in [0,2^20], 0-8 offsets mixing negative/zero/below/equal/beyond size/huge, every (max,target) in [-2,16] "
                 "against an independent specification and metamorphic relations (permutation, added negative offsets); non-trivial = offsets contain >=2 of {negative, zero, ==size, >size, huge}.",
-        "jobs": [bufstep("C03", 24000, 800000),
+        "jobs": [buffree("C03", 12000, 600000), bufstep("C03", 24000, 800000),
                  {"name": "cleaner_pure", "test": "TestC03CleanerPure", "checks": {"quick": 60000, "thorough": 3000000},
                   "shards": {"quick": 2, "thorough": 8}}],
     },
@@ -166,11 +177,11 @@ CONFIG = {
     },
     "C05": {
         "rule": BUF_MODEL + "non-trivial = a waking event (Put / cancel / Close) issued while a Get was observed blocked at quiescence; distinct = hash of the executed op trace." + WAITCOND_RULE,
-        "jobs": [bufstep("C05", 24000, 800000), waitcond("C05", 12000, 400000)],
+        "jobs": [buffree("C05", 12000, 600000), bufstep("C05", 24000, 800000), waitcond("C05", 12000, 400000)],
     },
     "C12": {
         "rule": BUF_MODEL + "non-trivial = a Close launched while another op on the handle was in flight or uncommitted reads existed AND >=2 handles closed in non-creation order; distinct = hash of the executed op trace. " + CHAN_MODEL + WAITCOND_RULE,
-        "jobs": [bufstep("C12", 24000, 800000), chanstep("C12", 12000, 400000), waitcond("C12", 8000, 300000)],
+        "jobs": [buffree("C12", 12000, 600000), bufstep("C12", 24000, 800000), chanstep("C12", 12000, 400000), waitcond("C12", 8000, 300000)],
     },
     "C19": {
         "rule": ("rapid-generated function signatures (reflect.FuncOf over a 19-type grammar, 0-4 params, optional "
